@@ -260,6 +260,7 @@ class Gen:
         self.heap = codec.Heap(cells, codec.PLAIN, fns=mk_fns([]))     # guide objects (log discarded)
         self.run = run
         self.in_ref = 0
+        self.in_fill = 0
 
     # what the guide knows about a target: a python object
     def obj(self, v):
@@ -286,8 +287,6 @@ class Gen:
         rng = self.rng
         if rng.random() < 0.22:
             return rng.choice(ODD_LEAVES)
-        if self.in_ref and rng.random() < 0.1:
-            return REFUSE()
         if isinstance(tgt, dict) and tgt:
             k = rng.choice(list(tgt.keys()))
             if isinstance(k, str) and k and '.' not in k:
@@ -296,7 +295,8 @@ class Gen:
                     sub = tgt[k]
                     if isinstance(sub, dict) and sub and rng.random() < 0.4:
                         k2 = rng.choice(list(sub.keys()))
-                        return P(k, k2)
+                        if isinstance(k2, str) and k2 and '.' not in k2:
+                            return P(k, k2)
                     return P(k)
                 if r < 0.8:
                     return TT(('[', VS(k)))
@@ -317,6 +317,8 @@ class Gen:
         if isinstance(tgt, bool) or isinstance(tgt, int):
             return rng.choice([F('inc'), F('inc'), F('ident'), TT(), F('is_int')])
         if isinstance(tgt, str):
+            if tgt not in STRS:          # GlomData indexes / measures only these strings
+                return rng.choice([F('ident'), TT(), F('is_none'), P('x')])
             return rng.choice([F('size'), F('ident'), TT(('[', VI(0))), TT()])
         return rng.choice([F('ident'), TT(), F('is_none'), V(VI(2))])
 
@@ -380,7 +382,11 @@ class Gen:
         return W('auto', self.gen(tgt, d - 1))
 
     def g_fill(self, tgt, d):
-        return W('fill', self.fill_template(tgt, d - 1))
+        self.in_fill += 1
+        try:
+            return W('fill', self.fill_template(tgt, d - 1))
+        finally:
+            self.in_fill -= 1
 
     def g_dict(self, tgt, d):
         rng = self.rng
@@ -395,8 +401,12 @@ class Gen:
                     key = KS(rng.choice([TT(('[', VS(kk))), W('spec', P(kk))]))
                 else:
                     key = KS(rng.choice([TT(('[', VS('x'))), W('spec', F('ret_SKIP')), W('spec', F('size')), TT()]))
+            if isinstance(key, dict) and key['s'] == TT():
+                if any(isinstance(k0, dict) and k0['s'] == TT() for k0, _ in pairs):
+                    key = k                      # bare T is one object: it can be a key only once
             pairs.append((key, self.gen(tgt, d - 1)))
-        return D(pairs, ordered=rng.random() < 0.3)
+        # (an OrderedDict inside Fill is returned as the spec object itself: outside the fragment)
+        return D(pairs, ordered=rng.random() < 0.3 and not self.in_fill)
 
     def g_list(self, tgt, d):
         items = list(tgt)
